@@ -56,3 +56,9 @@ LEMMA("make_converter_key_identifies_arguments",
       requires=[lambda ty, h, ty2, h2: implies(id_of(ty) == id_of(ty2), ty == ty2)],
       goal=[(lambda ty, h, ty2, h2: implies(retc("pane.convert:_make_converter_key_f", ty, h) == retc("pane.convert:_make_converter_key_f", ty2, h2),
                                             ty == ty2 and h == h2), ["C10", "C18"])])
+
+
+# make_converter is memoised in the UNBOUNDED mode - the mode KeyCache.__call__ is under contract for (transparency, retention of
+# the arguments behind id()-based keys). The bounded (LRU) mode keeps no references, so id() keys could be re-issued.
+SPEC("pane.convert", "make_converter@decorators", frame=[],
+     decorators=[("key_cache(_make_converter_key_f)", ["C10"])])
